@@ -37,11 +37,11 @@ def leaf_patterns(t):
     return out
 
 
-def probe_source(header, top, pats):
+def probe_source(header, top, pats, size_macro=None):
     lines = ['#include "%s"' % header, "#include <stddef.h>",
              "#define BPV_P ((struct %s *)0)" % top,
              "const long bpv_sizeof = (long)sizeof(struct %s);" % top,
-             "const long bpv_bytes_length = (long)BYTES_LENGTH_%s;" % upper_snake(top),
+             "const long bpv_bytes_length = (long)%s;" % (size_macro or ("BYTES_LENGTH_" + upper_snake(top))),
              "const long bpv_probe[] = {"]
     for expr, strides, _, _ in pats:
         row = ["(long)offsetof(struct %s, %s)" % (top, expr), "(long)sizeof(BPV_P->%s)" % expr]
@@ -209,7 +209,8 @@ class CBuilder:
         pats = leaf_patterns(prog["rtype"])
         probe = os.path.join(d, "bpv_probe.c")
         with open(probe, "w") as f:
-            f.write(probe_source(prog["main"] + "_bp.h", prog["top"], pats))
+            f.write(probe_source(prog["main"] + "_bp.h", prog.get("_c_top", prog["top"]), pats,
+                                 prog.get("_c_size_macro")))
         so = os.path.join(d, "libcase.so")
         base = [self.cc, "-shared", "-fPIC", "-w"] + self.cflags + ["-D" + x for x in self.defines] + \
                ["-I", common.REPO_LIBC, "-I", d]
@@ -233,7 +234,7 @@ class CBuilder:
             raise common.MachineryError("probe table misaligned")
         sizeof = ctypes.c_long.in_dll(lib, "bpv_sizeof").value
         bl = ctypes.c_long.in_dll(lib, "bpv_bytes_length").value
-        return CLib(so, prog["top"], prog["rtype"], pats, table[:n], sizeof, bl)
+        return CLib(so, prog.get("_c_top", prog["top"]), prog["rtype"], pats, table[:n], sizeof, bl)
 
 
 def run_many(cmds, jobs=16):
